@@ -591,3 +591,24 @@ mod tests {
         }
     }
 }
+
+#[cfg(test)]
+mod adhoc {
+    use super::*;
+    fn t(s: &str) -> Tm {
+        parse_tm(s).unwrap()
+    }
+    #[test]
+    fn c09_case() {
+        for n in [7usize, 10, 12] {
+            let mut cc = Cc::new(n);
+            cc.assert_eq(&t("(p3 $1 $0 $2)"), &t("(g $2 (p3 $2 $1 $0))"));
+            cc.assert_eq(&t("(u (p3 $0 $2 $1))"), &t("(p2 $2 $1)"));
+            cc.close();
+            println!("n={n} before eq3: nonred u(p3 0 2 1) = {:?}, p3 = {:?}", cc.nonredundant(&t("(u (p3 $0 $2 $1))")), cc.nonredundant(&t("(p3 $0 $1 $2)")));
+            cc.assert_eq(&t("(p3 $0 $1 $2)"), &t("(p3 $0 $2 $1)"));
+            cc.close();
+            println!("n={n} after eq3: nonred u(p3 0 2 1) = {:?}, p3 = {:?} p2 = {:?}", cc.nonredundant(&t("(u (p3 $0 $2 $1))")), cc.nonredundant(&t("(p3 $0 $1 $2)")), cc.nonredundant(&t("(p2 $0 $1)")));
+        }
+    }
+}
